@@ -4541,11 +4541,11 @@ process_request_body (struct MHD_Connection *connection)
                 break; /* need more data */
               mhd_assert (i > num_dig);
               mhd_assert (1 <= i);
-              /* Found LF position */
+              /* Found LF position, the chunk size line includes the LF */
               if (bare_lf_as_crlf)
-                chunk_size_line_len = i; /* Don't care about CR before LF */
+                chunk_size_line_len = i + 1; /* Don't care about CR before LF */
               else if ('\r' == buffer_head[i - 1])
-                chunk_size_line_len = i;
+                chunk_size_line_len = i + 1;
             }
             else
             { /* No ';' after "bad whitespace" */
